@@ -413,7 +413,7 @@ pub struct C03;
 impl C03 {
     fn gen(g: &mut Gen, tier: Tier) -> C03Case {
         if g.bool(0.12) {
-            let dc = crate::props::corridor::gen_dispatch_case(g, 3, &crate::gen::net_corridor::CorridorOpts { max_stages: 5, max_seg: 9000.0, p_branch: 0.3, ..Default::default() });
+            let dc = crate::props::corridor::gen_dispatch_case(g, 3, &crate::gen::net_corridor::CorridorOpts { max_stages: 5, max_seg: 9000.0, p_branch: 0.3, p_bypass: 0.2, ..Default::default() });
             return C03Case::Timed { timed: dc };
         }
         C03Case::Chain(gen_slts_case(g, tier, false))
